@@ -217,7 +217,8 @@ std::string hostile_login_reply(Rng &r)
 		"1", "10.0.0.2 ;id", "10.0.0.2\n", "999.999.999.999", "1.2.3", "1.2", "\xff\xfe", "AAAAAAAAAAAAAAAAAAAAAAAAAAAAAAAAAAAAAAAAAAAAAAAAAAAAAAAAAAAAAAAAAAAAAAAAAAAAAA", "%s%n", ""};
 	auto field_ip = [&]() {
 		std::string s;
-		if (r.chance(0.4)) s = std::to_string(r.range(0, 255)) + "." + std::to_string(r.range(0, 255)) + "." + std::to_string(r.range(0, 255)) + "." + std::to_string(r.range(0, 255));
+		if (r.chance(0.15)) s = std::to_string(r.range(100, 255)) + "." + std::to_string(r.range(100, 255)) + "." + std::to_string(r.range(100, 255)) + "." + std::to_string(r.range(100, 255));     // 15 characters: the longest a dotted quad gets (fixed-size copies and comparisons end here)
+		else if (r.chance(0.4)) s = std::to_string(r.range(0, 255)) + "." + std::to_string(r.range(0, 255)) + "." + std::to_string(r.range(0, 255)) + "." + std::to_string(r.range(0, 255));
 		else if (r.chance(0.3)) s = "10.0.0.2";
 		if (r.chance(0.7)) { int n = (int)r.range(1, 3); for (int i = 0; i < n; i++) s += frag[r.range(0, 27)]; }
 		return s;
